@@ -180,14 +180,32 @@ def discharge(obls, timeout_ms=20000, seed=0, retries=((60000, 1),), use_cvc5=Tr
     todo = [ob for ob in real if id(ob) not in hset] + left
     for ob in todo:
         ob._stage, ob._full = "z3(ematch)", True
-    # z3's search is chaotic on these VCs (dropping an irrelevant hypothesis can turn 10 s into 0.1 s), so the
-    # E-matching stage is a small portfolio of seeds with short budgets before the expensive default strategy
-    for i, tmo in enumerate((4000, 4000, 8000, min(timeout_ms, 15000))):
-        for ob in todo:
-            ob._stage = "z3(ematch,seed+%d)" % i
-        todo = _stage(p, todo, lambda ob: (ob.smt, tmo, seed + 11 * i, "z3", None, "ematch"))
+    # z3's search is chaotic on these VCs (dropping one irrelevant hypothesis can turn a timeout into an instant proof), so after
+    # a first E-matching attempt the still-open obligations get a perturbation portfolio, all variants at once:
+    # three more seeds on the full hypothesis set and eight pseudo-random 88% subsets (sound: a proof from fewer hypotheses)
     for ob in todo:
-        ob._stage = "z3"
+        ob._stage = "z3(ematch)"
+    todo = _stage(p, todo, lambda ob: (ob.smt, 4000, seed, "z3", None, "ematch"))
+    if todo:
+        jobs, owner = [], []
+        for ob in todo:
+            for i in range(8):
+                jobs.append((ob.smt, 5000, 1000 + i, "drop", None, "ematch"))
+                owner.append((ob, "z3(ematch,subset%d)" % i))
+            for i in (1, 2):
+                jobs.append((ob.smt, 8000, seed + 11 * i, "z3", None, "ematch"))
+                owner.append((ob, "z3(ematch,seed+%d)" % i))
+        res = list(p.map(worker.run, jobs, chunksize=1))
+        for (ob, stage), (st, t, why) in zip(owner, res):
+            ob.time += t / 10.0
+            if st == "unsat" and ob.status != "proved":
+                ob.status, ob.backend = "proved", stage
+        todo = [ob for ob in todo if ob.status != "proved"]
+    for ob in todo:
+        ob._stage = "z3(ematch,long)"
+    todo = _stage(p, todo, lambda ob: (ob.smt, min(timeout_ms, 15000), seed + 33, "z3", None, "ematch"))
+    for ob in todo:
+        ob._stage, ob._full = "z3", True
     todo = _stage(p, todo, lambda ob: (ob.smt, timeout_ms, seed, "z3", None, "auto"))
     for (tmo, sd) in retries:
         for ob in todo:
